@@ -138,3 +138,181 @@ Proof.
   intros Hs. rewrite !lag_1d_lsum, map_map. cbn [fst].
   rewrite <- (map_map fst (fun x => (x - m) / s)). apply lsum_affine. exact Hs.
 Qed.
+
+(* ------------------------------------------------------------------ sorting *)
+Lemma insert_perm {V} (p : Q * V) l : Permutation (insert p l) (p :: l).
+Proof.
+  induction l as [|h r IH]; simpl; [reflexivity|].
+  destruct (Qle_bool (fst p) (fst h)); [reflexivity|].
+  rewrite IH. apply perm_swap.
+Qed.
+
+Lemma sort_perm {V} (l : list (Q * V)) : Permutation (sort_pts l) l.
+Proof. induction l as [|h r IH]; simpl; [reflexivity|]. rewrite insert_perm, IH. reflexivity. Qed.
+
+Definition kle {V} (a b : Q * V) : Prop := fst a <= fst b.
+
+Lemma insert_sorted {V} (p : Q * V) l : StronglySorted kle l -> StronglySorted kle (insert p l).
+Proof.
+  induction 1 as [|h r Hs IH Hall]; simpl.
+  - constructor; constructor.
+  - destruct (Qle_bool (fst p) (fst h)) eqn:E.
+    + apply Qle_bool_iff in E. constructor; [constructor; assumption|].
+      constructor; [exact E|]. rewrite Forall_forall in *. intros x Hx. unfold kle in *.
+      specialize (Hall x Hx). lra.
+    + apply Qle_bool_false in E. constructor; [exact IH|].
+      rewrite Forall_forall in *. intros x Hx.
+      apply (Permutation_in _ (insert_perm p r)) in Hx. destruct Hx as [<-|Hx].
+      * unfold kle. lra.
+      * apply Hall, Hx.
+Qed.
+
+Lemma sort_sorted {V} (l : list (Q * V)) : StronglySorted kle (sort_pts l).
+Proof. induction l as [|h r IH]; simpl; [constructor|]. apply insert_sorted, IH. Qed.
+
+(* a sorted arrangement of samples with pairwise different abscissae is unique *)
+Lemma sorted_unique {V} (l1 l2 : list (Q * V)) :
+  StronglySorted kle l1 -> StronglySorted kle l2 -> Permutation l1 l2 ->
+  distinct (map fst l1) -> l1 = l2.
+Proof.
+  revert l2. induction l1 as [|a r1 IH]; intros l2 S1 S2 P D.
+  - apply Permutation_nil in P. subst. reflexivity.
+  - destruct l2 as [|b r2]; [apply Permutation_sym, Permutation_nil in P; discriminate|].
+    inversion S1 as [|? ? S1' A1]; subst. inversion S2 as [|? ? S2' A2]; subst.
+    simpl in D. apply distinct_cons_inv in D. destruct D as [Dh Dt].
+    rewrite Forall_forall in A1, A2, Dh.
+    assert (E : a = b).
+    { assert (Ia : In a (b :: r2)) by (apply (Permutation_in _ P); left; reflexivity).
+      assert (Ib : In b (a :: r1)) by (apply (Permutation_in _ (Permutation_sym P)); left; reflexivity).
+      destruct Ia as [->|Ia]; [reflexivity|]. destruct Ib as [->|Ib]; [reflexivity|].
+      exfalso. apply (Dh (fst b)); [apply in_map, Ib|].
+      specialize (A1 b Ib). specialize (A2 a Ia). unfold kle in *. lra. }
+    subst b. f_equal. apply IH; try assumption. apply (Permutation_cons_inv P).
+Qed.
+
+Lemma distinct_perm xs ys : Permutation xs ys -> distinct xs -> distinct ys.
+Proof.
+  intros P D. unfold distinct in *.
+  apply (PermutationA_preserves_NoDupA Q_Setoid (Permutation_PermutationA Q_Setoid P)). exact D.
+Qed.
+
+Lemma sort_perm_eq {V} (l l' : list (Q * V)) :
+  Permutation l l' -> distinct (map fst l) -> sort_pts l = sort_pts l'.
+Proof.
+  intros P D. apply sorted_unique; try apply sort_sorted.
+  - apply (Permutation_trans (sort_perm l)). apply (Permutation_trans P). apply Permutation_sym, sort_perm.
+  - apply (distinct_perm (map fst l)); [|exact D]. apply Permutation_map, Permutation_sym, sort_perm.
+Qed.
+
+(* strictly increasing abscissae are pairwise different and strongly sorted *)
+Lemma strictly_increasing_sorted xs : strictly_increasing xs = true -> StronglySorted Qlt xs.
+Proof.
+  induction xs as [|a r IH]; intros H; [constructor|].
+  destruct r as [|b r'].
+  - constructor; constructor.
+  - simpl in H. apply andb_prop in H. destruct H as [H1 H2]. apply Qlt_b_true in H1.
+    specialize (IH H2). constructor; [exact IH|].
+    inversion IH as [|? ? _ Hb]; subst. constructor; [exact H1|].
+    rewrite Forall_forall in *. intros x Hx. specialize (Hb x Hx). lra.
+Qed.
+
+Lemma sorted_distinct xs : StronglySorted Qlt xs -> distinct xs.
+Proof.
+  induction 1 as [|a r Hs IH Hall]; [constructor|].
+  constructor; [|exact IH]. intros HA. apply InA_alt in HA. destruct HA as [b [E Hb]].
+  rewrite Forall_forall in Hall. specialize (Hall b Hb). lra.
+Qed.
+
+Lemma sorted_skipn {A} (R : A -> A -> Prop) n l : StronglySorted R l -> StronglySorted R (skipn n l).
+Proof.
+  revert l. induction n as [|n IH]; intros l H; [exact H|].
+  destruct l as [|a r]; [constructor|]. simpl. apply IH. inversion H; assumption.
+Qed.
+
+Lemma sorted_firstn {A} (R : A -> A -> Prop) n l : StronglySorted R l -> StronglySorted R (firstn n l).
+Proof.
+  revert l. induction n as [|n IH]; intros l H; [constructor|].
+  destruct l as [|a r]; [constructor|]. simpl. inversion H as [|? ? Hs Hall]; subst.
+  constructor; [apply IH, Hs|]. rewrite Forall_forall in *. intros x Hx.
+  apply Hall. apply (firstn_subset n r). exact Hx.
+Qed.
+
+Lemma sorted_nth_lt xs i j : StronglySorted Qlt xs -> (i < j < length xs)%nat -> nth i xs 0 < nth j xs 0.
+Proof.
+  intros H. revert i j. induction H as [|a r Hs IH Hall]; intros i j Hij; [simpl in Hij; lia|].
+  destruct j as [|j]; [lia|]. destruct i as [|i]; simpl.
+  - rewrite Forall_forall in Hall. apply Hall. apply nth_In. simpl in Hij. lia.
+  - apply IH. simpl in Hij. lia.
+Qed.
+
+Lemma sorted_nth_inj xs i j : StronglySorted Qlt xs -> (i < length xs)%nat -> (j < length xs)%nat ->
+  nth i xs 0 == nth j xs 0 -> i = j.
+Proof.
+  intros H Hi Hj E. destruct (Nat.lt_trichotomy i j) as [L|[L|L]]; [|exact L|].
+  - pose proof (sorted_nth_lt xs i j H (conj L Hj)). lra.
+  - pose proof (sorted_nth_lt xs j i H (conj L Hi)). lra.
+Qed.
+
+(* ------------------------------------------------------------------ argmin *)
+Lemma argmin_from_spec t all : forall r pre best bestv,
+  all = pre ++ r -> (best < length pre)%nat -> bestv = Qabs (nth best all 0 - t) ->
+  (forall y, In y pre -> bestv <= Qabs (y - t)) ->
+  let j := argmin_from r t (length pre) best bestv in
+  (j < length all)%nat /\ forall y, In y all -> Qabs (nth j all 0 - t) <= Qabs (y - t).
+Proof.
+  induction r as [|x r IH]; intros pre best bestv Hall Hb Hv Hpre; simpl.
+  - rewrite app_nil_r in Hall. subst all. split; [exact Hb|]. intros y Hy. rewrite <- Hv. apply Hpre, Hy.
+  - assert (Hall' : all = (pre ++ [x]) ++ r) by (rewrite <- app_assoc; exact Hall).
+    assert (Hlen : length (pre ++ [x]) = S (length pre)) by (rewrite app_length; simpl; lia).
+    assert (Hnth : nth (length pre) all 0 = x).
+    { rewrite Hall. rewrite app_nth2 by lia. rewrite Nat.sub_diag. reflexivity. }
+    destruct (Qlt_b (Qabs (x - t)) bestv) eqn:E.
+    + apply Qlt_b_true in E. rewrite <- Hlen.
+      apply (IH (pre ++ [x]) (length pre) (Qabs (x - t))); [exact Hall'|lia|rewrite Hnth; reflexivity|].
+      intros y Hy. apply in_app_or in Hy. destruct Hy as [Hy|[<-|[]]].
+      * specialize (Hpre y Hy). lra.
+      * lra.
+    + apply Qlt_b_false in E. rewrite <- Hlen.
+      apply (IH (pre ++ [x]) best bestv); [exact Hall'|lia|exact Hv|].
+      intros y Hy. apply in_app_or in Hy. destruct Hy as [Hy|[<-|[]]]; [apply Hpre, Hy|exact E].
+Qed.
+
+Lemma argmin_spec xs t : xs <> [] ->
+  (argmin_abs xs t < length xs)%nat /\
+  forall y, In y xs -> Qabs (nth (argmin_abs xs t) xs 0 - t) <= Qabs (y - t).
+Proof.
+  destruct xs as [|x r]; [congruence|]. intros _. unfold argmin_abs.
+  apply (argmin_from_spec t (x :: r) r [x] 0%nat (Qabs (x - t))); simpl; try reflexivity; try lia.
+  intros y [<-|[]]. lra.
+Qed.
+
+(* at a node the argmin is the index of that node *)
+Lemma argmin_at_node xs i : StronglySorted Qlt xs -> (i < length xs)%nat -> argmin_abs xs (nth i xs 0) = i.
+Proof.
+  intros S Hi. assert (Hne : xs <> []) by (destruct xs; simpl in Hi; [lia|congruence]).
+  destruct (argmin_spec xs (nth i xs 0) Hne) as [Hj Hmin].
+  specialize (Hmin (nth i xs 0) (nth_In xs 0 Hi)).
+  apply (sorted_nth_inj xs); try assumption.
+  assert (Z : Qabs (nth i xs 0 - nth i xs 0) == 0) by (setoid_replace (nth i xs 0 - nth i xs 0) with 0 by ring; reflexivity).
+  rewrite Z in Hmin.
+  pose proof (Qabs_nonneg (nth (argmin_abs xs (nth i xs 0)) xs 0 - nth i xs 0)) as N.
+  assert (A0 : Qabs (nth (argmin_abs xs (nth i xs 0)) xs 0 - nth i xs 0) == 0) by lra.
+  destruct (Qabs_case (nth (argmin_abs xs (nth i xs 0)) xs 0 - nth i xs 0)) ; lra.
+Qed.
+
+(* the window contains the sample whose abscissa is x_new *)
+Lemma start_idx_bounds n w j : (3 <= w)%nat -> (w <= n)%nat -> (j < n)%nat ->
+  (start_idx n w j <= j < start_idx n w j + w)%nat /\ (start_idx n w j + w <= n)%nat.
+Proof.
+  intros Hw Hn Hj. unfold start_idx.
+  assert (H2 : (w / 2 < w)%nat) by (apply Nat.div_lt; lia).
+  lia.
+Qed.
+
+Lemma nth_window {A} (l : list A) st w j d : (st <= j < st + w)%nat -> (j < length l)%nat ->
+  nth (j - st) (firstn w (skipn st l)) d = nth j l d.
+Proof.
+  intros H Hl. rewrite nth_firstn. destruct (j - st <? w)%nat eqn:E.
+  - rewrite nth_skipn. f_equal. lia.
+  - apply Nat.ltb_ge in E. lia.
+Qed.
